@@ -678,6 +678,49 @@ class _ArgLoopUnroller(ast.NodeTransformer):
         return out
 
 
+def _expand_dict_kwargs(fn) -> int:
+    """shared = {"width": width, "semantic": semantic}; f(x, **shared)   ->   f(x, width=width, semantic=semantic)
+    for a local bound once to a dict literal with constant string keys whose values are names never rebound in the function
+    (or constants), and that is used for nothing but `**`-unpacking into calls."""
+    if isinstance(fn, ast.Lambda):
+        return 0
+    stores: dict[str, int] = {}
+    for n in ast.walk(fn):
+        if isinstance(n, ast.Name) and isinstance(n.ctx, (ast.Store, ast.Del)):
+            stores[n.id] = stores.get(n.id, 0) + 1
+    count = 0
+    for st in [x for x in walk_no_nested(fn) if isinstance(x, (ast.Assign,))]:
+        if not (len(st.targets) == 1 and isinstance(st.targets[0], ast.Name) and isinstance(st.value, ast.Dict)):
+            continue
+        v = st.targets[0].id
+        d = st.value
+        if stores.get(v) != 1 or not d.keys or any(not (isinstance(k, ast.Constant) and isinstance(k.value, str) and k.value.isidentifier()) for k in d.keys):
+            continue
+        if any(not (isinstance(x, ast.Constant) or (isinstance(x, ast.Name) and stores.get(x.id, 0) == 0)) for x in d.values):
+            continue
+        loads = [x for x in ast.walk(fn) if isinstance(x, ast.Name) and x.id == v and isinstance(x.ctx, ast.Load)]
+        star_uses = [(c, k) for c in ast.walk(fn) if isinstance(c, ast.Call) for k in c.keywords if k.arg is None and isinstance(k.value, ast.Name) and k.value.id == v]
+        if not star_uses or len(loads) != len(star_uses):
+            continue
+        for c, k in star_uses:
+            explicit = {kw.arg for kw in c.keywords if kw.arg}
+            if explicit & {key.value for key in d.keys}:
+                break
+        else:
+            for c, k in star_uses:
+                i = c.keywords.index(k)
+                c.keywords[i:i + 1] = [ast.copy_location(ast.keyword(arg=key.value, value=clone(val)), k.value) for key, val in zip(d.keys, d.values)]
+            for holder in ast.walk(fn):
+                for fld in ("body", "orelse", "finalbody"):
+                    lst = getattr(holder, fld, None)
+                    if isinstance(lst, list) and st in lst:
+                        lst.remove(st)
+                        if not lst:
+                            lst.append(ast.copy_location(ast.Pass(), st))
+            count += 1
+    return count
+
+
 class _PartialFolder(ast.NodeTransformer):
     """f = partial(g, a, k=v) ... f(x, y=z)   ->   g(a, x, k=v, y=z)
     for a local `f` that is bound once, only ever called, and whose frozen arguments are constants or names that are never
@@ -1101,6 +1144,7 @@ def build_inlined_repo(root=None, keep: set[str] | None = None) -> tuple[Repo, d
         al = _ArgLoopUnroller(fi)
         al.visit(fi.node)
         unrolled += al.count
+        unrolled += _expand_dict_kwargs(fi.node)
         pf = _PartialFolder(fi.node)
         if pf.partials:
             pf.visit(fi.node)
